@@ -153,6 +153,7 @@ func main() {
 				fatal(err)
 			}
 		}
+		stmtYields = *mode == "c06"
 		sort.Strings(yieldFiles)
 		for _, n := range yieldFiles {
 			relf, _ := filepath.Rel(*repo, n)
@@ -452,6 +453,9 @@ func rewriteConcurrency(p *packages.Package, f *ast.File, relf string, sites *[]
 // file. It works on the text (offsets from a syntax-only parse), not through
 // go/printer: a synthetic statement in front of a comment that follows the brace
 // gets torn apart by the printer.
+// stmtYields: also yield between statements (mode c06 only).
+var stmtYields bool
+
 func insertYieldsText(path, relf string, sites *[]site) error {
 	src, err := os.ReadFile(path)
 	if err != nil {
@@ -467,34 +471,72 @@ func insertYieldsText(path, relf string, sites *[]site) error {
 		text string
 	}
 	var list []ins
+	entryBlocks := map[*ast.BlockStmt]bool{} // blocks that already get an entry yield
 	add := func(b *ast.BlockStmt, at ast.Node, kind string) {
 		if b == nil {
 			return
 		}
+		entryBlocks[b] = true
 		ps := fset.Position(at.Pos())
 		id := fmt.Sprintf("%s:%d:%d:%s", relf, ps.Line, ps.Column, kind)
 		*sites = append(*sites, site{ID: id, Rule: "R2", Pkg: filepath.ToSlash(filepath.Dir(relf))})
 		list = append(list, ins{fset.Position(b.Lbrace).Offset + 1, fmt.Sprintf(" verifsimrt.Yield(%q);", id)})
 	}
-	ast.Inspect(f, func(node ast.Node) bool {
-		switch x := node.(type) {
-		case *ast.FuncDecl:
-			if x.Body != nil && x.Name.Name != "init" {
-				add(x.Body, x, "func")
+	// statement-level yields: before every statement but the first of a statement
+	// list inside a function (narrow windows between two adjacent statements)
+	stmts := func(l []ast.Stmt, skipFirst bool) {
+		for i, st := range l {
+			if i == 0 && skipFirst {
+				continue
 			}
-		case *ast.FuncLit:
-			add(x.Body, x, "funclit")
-		case *ast.ForStmt:
-			add(x.Body, x, "for")
-		case *ast.RangeStmt:
-			add(x.Body, x, "range")
+			switch st.(type) {
+			case *ast.CaseClause, *ast.CommClause:
+				continue
+			}
+			ps := fset.Position(st.Pos())
+			id := fmt.Sprintf("%s:%d:%d:stmt", relf, ps.Line, ps.Column)
+			*sites = append(*sites, site{ID: id, Rule: "R2s", Pkg: filepath.ToSlash(filepath.Dir(relf))})
+			list = append(list, ins{ps.Offset, fmt.Sprintf("verifsimrt.Yield(%q); ", id)})
 		}
-		return true
-	})
+	}
+	inFunc := 0
+	var walk func(n ast.Node)
+	walk = func(n ast.Node) {
+		ast.Inspect(n, func(node ast.Node) bool {
+			switch x := node.(type) {
+			case *ast.FuncDecl:
+				if x.Body != nil && x.Name.Name != "init" {
+					add(x.Body, x, "func")
+					if stmtYields {
+						inFunc++
+						walk(x.Body)
+						inFunc--
+						return false
+					}
+				}
+			case *ast.FuncLit:
+				add(x.Body, x, "funclit")
+			case *ast.ForStmt:
+				add(x.Body, x, "for")
+			case *ast.RangeStmt:
+				add(x.Body, x, "range")
+			case *ast.BlockStmt:
+				if inFunc > 0 {
+					stmts(x.List, entryBlocks[x])
+				}
+			case *ast.CaseClause:
+				if inFunc > 0 {
+					stmts(x.Body, false)
+				}
+			}
+			return true
+		})
+	}
+	walk(f)
 	if len(list) == 0 {
 		return nil
 	}
-	sort.Slice(list, func(i, j int) bool { return list[i].off > list[j].off })
+	sort.SliceStable(list, func(i, j int) bool { return list[i].off > list[j].off })
 	out := append([]byte(nil), src...)
 	for _, in := range list {
 		out = append(out[:in.off:in.off], append([]byte(in.text), out[in.off:]...)...)
